@@ -43,6 +43,7 @@ def cases(tier, seed):
         out.append({"part": "scanfaults", "ident": [0x5, 0x80000000, 0, 0xFFFFFFFE], "D": 2})
     for svc in ("inquire", "node_id", "bit_timing", "store", "misc"):
         out.append({"part": "services", "svc": svc})
+    out.append({"part": "after-dups"})
     return out
 
 
@@ -252,7 +253,48 @@ def run_services(case, st):
     st.sample({"services": svc, "calls": len(calls)}, cap=5)
 
 
+def run_after_duplicates(case, st):
+    """History: a service whose reply arrives 2 or 3 times, then another service: it must get the slave's answer."""
+    from canopen.lss import LssError
+    ident = [0x22, 0x12345678, 0x555, 0xABCDEF]
+    firsts = [("inquire-node-id", lambda l: l.inquire_node_id()), ("store", lambda l: l.store_configuration()),
+              ("configure-node-id", lambda l: l.configure_node_id(9)), ("inquire-vendor", lambda l: l.inquire_lss_address(0x5A))]
+    seconds = [("inquire-product", lambda l: l.inquire_lss_address(0x5B), 0x12345678), ("inquire-node-id", lambda l: l.inquire_node_id(), None),
+               ("store", lambda l: l.store_configuration(), None), ("configure-bit-timing", lambda l: l.configure_bit_timing(2), None)]
+    for copies in (2, 3, 4):
+        for fn_name, first in firsts:
+            for sn, second, want in seconds:
+                state = {"armed": True}
+
+                def flt(r, copies=copies, state=state):
+                    if state["armed"] and r[0] != 0x4F:
+                        state["armed"] = False
+                        return [r] * copies
+                    return [r]
+                net, slave, bus = make(ident, resp_filter=flt)
+                net.lss.send_switch_state_global(net.lss.CONFIGURATION_STATE)
+                st.evaluations += 1
+                st.nontrivial.add(("dups", copies, fn_name, sn))
+                rc = dict(case, copies=copies, first=fn_name, second=sn)
+                try:
+                    first(net.lss)
+                except LssError:
+                    pass
+                try:
+                    got = second(net.lss)
+                except Exception as e:  # noqa: BLE001
+                    st.violation(f"C18:after-duplicate-replies:{type(e).__name__}", rc, "the slave's answer", repr(e)[:100])
+                    continue
+                if sn == "inquire-node-id":
+                    want = slave.node_id
+                if want is not None and got != want:
+                    st.violation("C18:after-duplicate-replies:wrong-answer", rc, want, got)
+                st.outcome("service after duplicates ok")
+
+
 def run_case(case, st):
+    if case["part"] == "after-dups":
+        return run_after_duplicates(case, st)
     {"ident": run_ident, "pairs": run_pairs, "scanfaults": run_scanfaults, "services": run_services}[case["part"]](case, st)
 
 
